@@ -138,8 +138,18 @@ func serialise(c *runner.Ctx, fam string, x sei.SEIMessage, wit interface{}) (ty
 		c.Violation(runner.PanicKey(fam+"/serialise-panic", pi), "Type/Size/Payload panicked: "+pi.Value, wit)
 		return 0, 0, nil, false
 	}
+	// the payload handed out by the previous message of this family is still in the caller's hands
+	// (e.g. wrapped in NewSEIData and queued for writing): serialising another message must not change it
+	if h := heldPayloads[fam]; h != nil && !bytes.Equal(h.slice, h.copy) {
+		c.Violation(fam+"/earlier-payload-changed-by-later-call", fmt.Sprintf("the slice returned by an earlier Payload() was %x and reads %x after Payload() of another message (%x)", h.copy, h.slice, pl), wit)
+	}
+	heldPayloads[fam] = &heldPayload{slice: pl, copy: append([]byte(nil), pl...)}
 	return typ, size, pl, true
 }
+
+type heldPayload struct{ slice, copy []byte }
+
+var heldPayloads = map[string]*heldPayload{}
 
 // roundTrip checks Size()==len(Payload()), the type and Decode(Payload())==x
 // through every decoder entry given.
